@@ -226,4 +226,5 @@ class Program:
         if isinstance(v, Int): return v.ty
         if isinstance(v, Float): return 'f64'
         if isinstance(v, Bool): return 'bool'
+        if hasattr(v, 'keys') and hasattr(v, 'ty'): return v.ty      # MapV: 'Object' | 'HashMap' | 'BTreeMap'
         return None
